@@ -150,7 +150,7 @@ fn go_bounded(s: &mut Sess, args: &str) -> (GoResult, Option<String>) {
             let c0 = s.eng.cpu_seconds().unwrap_or(0.0);
             if let Some(i) = s.eng.wait_for(|l| l.starts_with("bestmove"), Duration::from_millis(300)) {
                 let e = &s.eng.transcript[i];
-                g.bestmove = Some((e.line.strip_prefix("bestmove").unwrap_or("").trim().to_string(), e.t));
+                g.bestmove = Some((crate::sess::bestmove_text(&e.line), e.t));
                 return (g, None);
             }
             let c1 = s.eng.cpu_seconds().unwrap_or(0.0);
@@ -158,7 +158,7 @@ fn go_bounded(s: &mut Sess, args: &str) -> (GoResult, Option<String>) {
         }
         if let Some(i) = s.eng.wait_for(|l| l.starts_with("bestmove"), Duration::from_millis(200)) {
             let e = &s.eng.transcript[i];
-            g.bestmove = Some((e.line.strip_prefix("bestmove").unwrap_or("").trim().to_string(), e.t));
+            g.bestmove = Some((crate::sess::bestmove_text(&e.line), e.t));
             return (g, None);
         }
         if Instant::now() > t_end {
